@@ -64,11 +64,6 @@ theorem DelivF.ofDCF {inp : RunInput} {s : Sys} {n : Name} {nd : Node} (hD : Inv
     cases hdd : ddOf inp s c <;> rw [hdd] at hsf <;> first | rfl | (simp [startedFail] at hsf)
   exact hdcf n nd hn c hc hpr hf ⟨_, (ddOf_spec hD hfin).1, hsf⟩
 
-theorem DelivF.noFail {inp : RunInput} [h : NoFailDeliver inp] (s : Sys) (nd : Node) : DelivF inp s nd := by
-  intro c _ _ _ _
-  rw [h.nil c]
-  refine ⟨?_, ?_, ?_⟩ <;> (intro x hx; cases hx)
-
 /-- what the invariants give about the dependency lists of a node that is outside the dependency loop and waits for
     nothing (the two select points, and `done`) -/
 structure SelDeps (inp : RunInput) (s : Sys) (n : Name) (nd : Node) : Prop where
